@@ -518,3 +518,23 @@ def exit_status(st):
         return None  # sys.exit() == status 0
     v = const_value(call.args[0], "?")
     return v
+
+
+def sentinel_guard(m, L):
+    """How the collection loop L counts sentinels: ("up", counter) for `while c != len(procs)` (c incremented per sentinel),
+    ("down", counter) for `c = len(procs) ... while c != 0` (c decremented per sentinel), or None when the guard is neither."""
+    from ..core import reaching_def
+
+    test = L.node.test
+    if not (isinstance(test, ast.Compare) and len(test.ops) == 1):
+        return None
+    l_, r_ = test.left, test.comparators[0]
+    for a, b in ((l_, r_), (r_, l_)):
+        nb = norm(b)
+        if isinstance(test.ops[0], (ast.NotEq, ast.Lt, ast.Gt)) and nb.startswith("len(") and nb[4:-1] in m.proc_lists and isinstance(a, ast.Name):
+            return ("up", a.id)
+        if isinstance(test.ops[0], (ast.NotEq, ast.Gt, ast.Lt)) and isinstance(b, ast.Constant) and b.value == 0 and isinstance(a, ast.Name):
+            d = reaching_def(m.parent.node, L.node, a.id)
+            if d is not None and norm(d).startswith("len(") and norm(d)[4:-1] in m.proc_lists:
+                return ("down", a.id)
+    return None
